@@ -131,7 +131,11 @@ of the API.
   methods and the standard library's walk; `Unwrap()` must agree with `Cause()`
   and with the visible cause (`C07-r2`); the `newfew` kind, `Newf("… %v … %w",
   hidden, cause)`: the `%w` operand is not the first error argument (`C07-r3`).
-* **C08** — fresh "twin" objects equivalent to the sentinels in the reference
+* **C08** — one case in ten ends its main chain in the sometimes-leaf-sometimes-wrapper
+  type with a text `a: b`, and the reference pool gets the same tree with that leaf
+  replaced by wrapper[`a`](leaf[`b`]): equal texts, and every layer's type chain is
+  the candidate's strictly extended (`C08`, whose catch rested on 2 observations);
+  fresh "twin" objects equivalent to the sentinels in the reference
   pool, and `Mark(e, r)` with a reference that `e` already matches (`C08-r3`);
   `IsAny` is called with a spread slice that has a nil in the middle, the slice is
   compared before / after and used again (`A07-r4`).
@@ -211,7 +215,9 @@ of the API.
   wrapper types that implement `ErrorHinter` / `ErrorDetailer` themselves
   (`hdleaf`, `hdwrap`, registered so that they survive the network) (`G03-r6`);
   one case in ten has two gRPC code layers, the outer one often `Unknown`, the
-  "nothing attached" default; C20 does the same (`C20-r2`, regression).
+  "nothing attached" default; C20 does the same (`C20-r2`, regression), and in one
+  case in ten lengthens strings to several hundred bytes of multi-byte runes
+  (`C20-r3`, whose catch rested on 4 observations).
 
 Independently of the seeded changes, `tools/coverage.sh` measures which statements
 of the library the monitors' workloads execute (the harness built with
